@@ -55,3 +55,53 @@ Print Assumptions C05_foldback_outside_hypothesis.
 
 (* ===== Part 2: the sweep-line toggle logic (model/Sweep1D.v) — theorems about the open edges of the sweep model
    (proofs/Sweep1D_main.v: open_hot_iff, open_crossing_leaves_closed_unchanged) are added here by the integrator ===== *)
+
+From Coq Require Import ZArith List.
+From Clip Require Import base.CSem gen.Gen_core gen.Gen_engine model.Sweep1D.
+From Clip Require Import proofs.Sweep1D_main proofs.Sweep1D_gen proofs.Sweep1D_erase.
+Local Open Scope Z_scope.
+
+(* in every AEL reachable by any well-formed event history (C01_reachable: inv_b holds there) an open-path edge is
+   hot -- i.e. currently emitting a solution piece -- exactly where open subjects are to be kept:
+   inside the clip region for Intersection, outside it for Difference and Xor, outside both regions for Union *)
+Theorem C05_open_hot_iff_kept : forall ct fr pre e post,
+  inv_b ct fr (pre ++ e :: post) = true -> eopen e = true ->
+  is_hot e = open_in_result ct fr (Wsum Subj pre) (Wsum Clp pre).
+Proof. exact open_hot_iff. Qed.
+Print Assumptions C05_open_hot_iff_kept.
+
+(* the invariant is preserved by every event, open-path events (EInsert … true, EInsert1, ERemove1, crossings
+   of an open with a closed edge) included: this is C01_step_preserves, restated here because the open branch of
+   IntersectEdges (toggle on crossing a closed edge) is part of `step` *)
+Theorem C05_open_step_preserves : forall ct fr a ev,
+  ct <> NoClip -> inv_b ct fr a = true -> wf_event a ev = true ->
+  exists a', step ct fr a ev = Some a' /\ inv_b ct fr a' = true.
+Proof. exact step_preserves. Qed.
+Print Assumptions C05_open_step_preserves.
+
+(* the start state of an open edge is decided by the TRANSLATED IsContributingOpen *)
+Theorem C05_contributing_open_is_translated : forall ct fr e,
+  is_contributing_open ct fr e = IsContributingOpen (ct_code ct) (fr_code fr) (to_active e).
+Proof. exact contributing_open_is_translated. Qed.
+Print Assumptions C05_contributing_open_is_translated.
+
+(* "adding open subjects does not change the region of the closed solution", at the level of sweep state:
+   crossing an open edge never changes the closed edge, and in a reachable AEL the closed edges' wind counts, hot
+   flags and sides are what they are with every open edge deleted *)
+Theorem C05_open_crossing_leaves_closed_unchanged : forall ct fr ph same e1 e2,
+  (eopen e1 = true -> eopen e2 = false -> exists o, intersect_edges ct fr ph same e1 e2 = Some (o, e2)) /\
+  (eopen e1 = false -> eopen e2 = true -> exists o, intersect_edges ct fr ph same e1 e2 = Some (e1, o)).
+Proof. exact open_crossing_leaves_closed_unchanged. Qed.
+Print Assumptions C05_open_crossing_leaves_closed_unchanged.
+
+Theorem C05_closed_state_ignores_open : forall ct fr a,
+  inv_b ct fr a = true ->
+  inv_b ct fr (closed_only a) = true /\ (forall pt, Wsum pt (closed_only a) = Wsum pt a).
+Proof. intros ct fr a H. split; [apply closed_state_ignores_open, H|intros pt; apply Wsum_closed_only]. Qed.
+Print Assumptions C05_closed_state_ignores_open.
+
+(* partial: cut positions and lengths are geometry (validated against the exact rational specification above);
+   joins at open x closed crossings are not part of the model (the defect fixed in /repo "no join check at an
+   intersection that involves an open edge" lived there). *)
+Definition C05_open_logic_partial :=
+  (C05_open_hot_iff_kept, C05_open_step_preserves, C05_open_crossing_leaves_closed_unchanged, C05_closed_state_ignores_open).
